@@ -177,7 +177,8 @@ class FaultHandlerOverrideTlv(AbstractTlvBase):
     def unpack(cls, data: bytes) -> FaultHandlerOverrideTlv:
         fault_handler_ovr_tlv = cls.__empty()
         fault_handler_ovr_tlv.tlv = CfdpTlv.unpack(data=data)
-        fault_handler_ovr_tlv.check_type(tlv_type=FaultHandlerOverrideTlv.TLV_TYPE)
+        if fault_handler_ovr_tlv.tlv.tlv_type != cls.TLV_TYPE:
+            raise TlvTypeMissmatch(fault_handler_ovr_tlv.tlv.tlv_type, cls.TLV_TYPE)
         fault_handler_ovr_tlv.condition_code = (
             fault_handler_ovr_tlv.tlv.value[0] & 0xF0
         ) >> 4
@@ -534,7 +535,8 @@ class EntityIdTlv(AbstractTlvBase):
     def unpack(cls, data: bytes) -> EntityIdTlv:
         entity_id_tlv = cls.__empty()
         entity_id_tlv.tlv = CfdpTlv.unpack(data=data)
-        entity_id_tlv.check_type(tlv_type=TlvType.ENTITY_ID)
+        if entity_id_tlv.tlv.tlv_type != cls.TLV_TYPE:
+            raise TlvTypeMissmatch(entity_id_tlv.tlv.tlv_type, cls.TLV_TYPE)
         return entity_id_tlv
 
     @classmethod
